@@ -10,6 +10,26 @@ BUILT = {
    text="Exhaustive TLC run of the timed port specification (all arrival patterns within the stated bounds, three limit modes, rate 0, RED with scripted draws) checks the departure law, occupancy bound, counter identity, byte accounting and the RED region rules; every emitted workload (sampled in the quick tier) and seeded random larger ones are executed on the real classes and each recorded trace (arrivals, departures, monitor samples, public counters after every event) must be a behaviour of the same specification.",
    note="integer time/size lattice (rate = 8/K); off-lattice float rounding and RED drop frequencies are not decided; TLC and the JSON trace plumbing are trusted",
    design="6/C09"),
+ "C12": dict(
+   technique="TLA+ spec Sched.tla (policy ANY) model-checked with TLC + TLC trace validation of all six real schedulers and the Monitor",
+   text="Exhaustive TLC run of the timed scheduler specification with the selection rule left open checks, over all workloads within the bounds, the start law (k-th transmission starts at max(end of k-1, k-th arrival) and lasts 8*size/rate: work-conserving, non-preemptive, rate-exact), per-flow FIFO, exactly-once, counter exactness; emitted and seeded random workloads (bursts, arrivals at transmission ends, idle gaps, several flows per class) are executed on the real SP/WFQ/VC/DRR/RR/WRR and each recorded trace (taps, size()/byte_size()/total_packets/packet_in_service after every action, Monitor samples) must be a behaviour of that specification.",
+   note="integer lattice; selection order is deliberately not judged here (C13-C15 do); TLC and the JSON plumbing are trusted",
+   design="6/C12"),
+ "C13": dict(
+   technique="TLA+ spec Sched.tla (policy SP) model-checked with TLC + TLC trace validation of the real SP scheduler",
+   text="TLC checks StrictAtStart over a selection history on all workloads within the bounds (priority tables incl. equal priorities, 2-3 flows); emitted and random workloads keeping several priority levels backlogged are run on the real SP scheduler and every service start (pinned by departures, packet_in_service and the counters after each action) must be a selection the specification allows.",
+   note="integer lattice; equal-priority ties are left open as the property does",
+   design="6/C13"),
+ "C14": dict(
+   technique="TLA+ spec Sched.tla (policies WFQ, VC) model-checked with TLC + TLC trace validation of the real WFQ and VirtualClock binding finish_times/vtime/aux_vc",
+   text="TLC checks StampOrder on the selection history, counter exactness and the static-backlog fairness bound |S_i/w_i - S_j/w_j| <= Lmax/w_i + Lmax/w_j on all workloads within the bounds; emitted and random lattice workloads (idle periods that reset virtual time, equal stamps, shared classes) are run on the real WFQ and VC, binding the stamp given to every arriving packet, the virtual time and the departure order.",
+   note="WFQ sizes and instants are multiples of lcm(1..sum of weights) so every stamp is an exact integer; equal (stamp, arrival instant) ties are left open",
+   design="6/C14"),
+ "C15": dict(
+   technique="TLA+ spec Sched.tla (policies DRR, RR, WRR) model-checked with TLC + TLC trace validation of the real DRR/RR/WRR binding DRR.deficit",
+   text="TLC checks CreditRange, the DRR fairness bound over joint-backlog periods, RR one-per-visit and WRR allowance over a selection history on all workloads within the bounds; emitted and random workloads (packets larger/smaller than the quantum, classes emptying and refilling mid-round, shared classes) are run on the real schedulers, binding every class's deficit at every tap and the departure order.",
+   note="integer lattice (quantum unit 1500, sizes multiples of 500); where the scan resumes after an idle period is left open as the property does",
+   design="6/C15"),
 }
 
 checks = []
